@@ -585,13 +585,21 @@ func c19Exec(c *c19Case, r *Result) {
 		recs = append(recs, rec)
 		var d decor.Decorator = rec
 		for j := 0; j < c.Depth; j++ {
-			switch (i + j) % 3 {
+			switch (i + j + c.Seed) % 7 {
 			case 0:
 				d = decor.OnComplete(d, "done")
 			case 1:
 				d = decor.Meta(d, func(s string) string { return s })
-			default:
+			case 2:
 				d = decor.OnAbortMeta(d, func(s string) string { return s })
+			case 3:
+				d = decor.OnCompleteOrOnAbort(d, "fin")
+			case 4:
+				d = decor.OnCompleteMetaOrOnAbortMeta(d, func(s string) string { return s })
+			case 5:
+				d = decor.OnAbort(d, "abrt")
+			default:
+				d = decor.OnCompleteMeta(d, func(s string) string { return s })
 			}
 		}
 		ds = append(ds, d)
